@@ -103,6 +103,53 @@ def _strict_less(name, args):
     return None
 
 
+def _root_local(b, op, depth=6):
+    """The variable an operand is a plain copy of."""
+    from .facts import op_local
+    l = op_local(op)
+    if l is None or ('pl' in op and op['pl']['p']):
+        return None
+    for _ in range(depth):
+        d = b.single_def(l)
+        if d and d[0] == 'stmt' and d[3]['rv']['k'] == 'use' and 'pl' in d[3]['rv']['op'] and not d[3]['rv']['op']['pl']['p']:
+            l = d[3]['rv']['op']['pl']['l']
+            continue
+        break
+    return l
+
+
+def _pair_ordered_by_locals(fb):
+    """Every `(start, end)` tuple of two usize values built in fb sits on the true side of a comparison `end > start` of the
+    very same two variables (identity of MIR locals, so the depth of a textual description does not matter)."""
+    from .nonfinite import dominating_decisions
+    tuples = [(bb, s) for bb, si, s in fb.stmts() if s['k'] == 'assign' and s['rv']['k'] == 'agg' and s['rv'].get('ak') == 'tuple'
+              and len(s['rv']['ops']) == 2 and all((o.get('pl') or {}).get('ty') == 'usize' or o.get('ty') == 'usize' for o in s['rv']['ops'])]
+    if not tuples:
+        return False
+    for bb, s in tuples:
+        a, c = _root_local(fb, s['rv']['ops'][0]), _root_local(fb, s['rv']['ops'][1])
+        if a is None or c is None:
+            return False
+        good = False
+        for g in range(fb.n):
+            t = fb.blocks[g]['term']
+            if t['k'] != 'switch' or not fb.dominates(g, bb) or g == bb:
+                continue
+            from .facts import op_local
+            l = op_local(t['op'])
+            d = fb.single_def(l) if l is not None else None
+            if not (d and d[0] == 'stmt' and d[3]['rv']['k'] == 'bin' and d[3]['rv']['op'] in ('Gt', 'Lt')):
+                continue
+            x, y = _root_local(fb, d[3]['rv']['a']), _root_local(fb, d[3]['rv']['b'])
+            small, large = (y, x) if d[3]['rv']['op'] == 'Gt' else (x, y)
+            true_t = t['otherwise']
+            if (small, large) == (a, c) and (true_t == bb or fb.dominates(true_t, bb)) and list(fb.pred(true_t)) == [g]:
+                good = True
+        if not good:
+            return False
+    return True
+
+
 def _ordered_pair_value(F, fb, d, decisions):
     """Is the Option<(start, end)> described by `d` (a value of function `fb`, reached under `decisions`) either None or
     a pair with end > start?  Recognised: `x?` residuals, None, `opt.filter(|(s, e)| e > s)`, `(e > s).then_some((s, e))`,
@@ -147,6 +194,8 @@ def _ordered_pair_value(F, fb, d, decisions):
                     # !(end <= start)  /  !(start >= end)
                     if (cn == 'Le' and (ca[1], ca[0]) == (ta[0], ta[1])) or (cn == 'Ge' and (ca[0], ca[1]) == (ta[0], ta[1])):
                         return True, ''
+            if _pair_ordered_by_locals(fb):
+                return True, ''
             return False, 'Some((start, end)) is returned on a path that did not establish end > start'
     return False, 'value is not recognised as None or an ordered pair'
 
